@@ -414,7 +414,7 @@ func (c *Compiler) compileProgram(node *ast.Program) error {
 				return err
 			}
 			if i < count-1 {
-				if stmt.IsExpression() {
+				if leavesValue(stmt) {
 					c.emit(op.PopTop)
 				}
 			}
@@ -422,6 +422,9 @@ func (c *Compiler) compileProgram(node *ast.Program) error {
 		// Guarantee that the program evaluates to a value
 		lastStatement := statements[count-1]
 		if !lastStatement.IsExpression() {
+			if leavesValue(lastStatement) {
+				c.emit(op.PopTop)
+			}
 			c.emit(op.Nil)
 		}
 	}
@@ -445,7 +448,7 @@ func (c *Compiler) compileBlock(node *ast.Block) error {
 				return err
 			}
 			if i < count-1 {
-				if stmt.IsExpression() {
+				if leavesValue(stmt) {
 					c.emit(op.PopTop)
 				}
 			}
@@ -453,6 +456,9 @@ func (c *Compiler) compileBlock(node *ast.Block) error {
 		// Guarantee that the block evaluates to a value
 		lastStatement := statements[count-1]
 		if !lastStatement.IsExpression() {
+			if leavesValue(lastStatement) {
+				c.emit(op.PopTop)
+			}
 			c.emit(op.Nil)
 		}
 	}
@@ -472,12 +478,25 @@ func (c *Compiler) compileFunctionBlock(node *ast.Block) error {
 			return err
 		}
 		if i < count-1 {
-			if stmt.IsExpression() {
+			if leavesValue(stmt) {
 				c.emit(op.PopTop)
 			}
 		}
 	}
 	return nil
+}
+
+// leavesValue reports whether the compiled statement leaves a value on the
+// stack. Besides expressions this includes named function declarations, which
+// are not expressions but push the function object (see compileFunc).
+func leavesValue(stmt ast.Node) bool {
+	if stmt.IsExpression() {
+		return true
+	}
+	if fn, ok := stmt.(*ast.Func); ok && fn.Name() != nil {
+		return true
+	}
+	return false
 }
 
 func (c *Compiler) compileVar(node *ast.Var) error {
